@@ -62,6 +62,11 @@ CLAIMED["C04"] = dict(
    note="ElementStyle.Get*/Properties.GetFontWeight assumed pure (read-only styles); unknown callees (resolveVar, validators, logger) havoc the heap and their panic-freedom is waived here (C07/C08); float-as-real with float32 table constants de-rounded to their defining fractions; constant tables assumed not mutated after init (no write found in the loaded program); initial font-weight = 400 checked natively (bounded, one case)",
    ref="DESIGN.md §4 C04")
 
+CLAIMED["C08"] = dict(
+   text="Spelling-insensitivity and shorthand kernels are under contract and proved: getKeyword / getSingleKeyword return the ASCII-lower-cased identifier; getLength accepts each of the 11 length units under any ASCII case with the value unchanged (unit table read from its init literal), rejects unknown units, negative values where not allowed and non-zero bare numbers, and handles percentages as specified; getAngle recognises its 4 units case-insensitively (defect found and fixed: units were matched case-sensitively, also for resolution and fr); ParseFunction lower-cases function names; RemoveWhitespace drops only white space and comments; expandFourSides hands the 1-4 value tokens to the four longhands exactly as CSS 2.1 §8.3 assigns them (call-site assertions for every arity). var() substitution (resolveVar: termination on every reference graph incl. cycles, no var() left, equality with textual substitution when acyclic) is decided only by an exhaustive BOUNDED enumeration (3 variables x 13 value forms; two fatal-recursion defects found and fixed), labelled bounded and not counted as proved. NOT under contract: the other shorthand expanders, the ~200 property validators, 'an invalid declaration is dropped alone' (PreprocessDeclarations), invalid-at-computed-value-time beyond what C04 cascadeValue states.",
+   note="utils.AsciiLower is a pure function of its argument (proved panic-free and length-preserving on emptiness; its case mapping itself is not specified); validateNonShorthand trusted to leave its inputs unchanged; KnownProp.String/Shortand.String trusted table reads; tokens assumed non-nil in token lists (waived preconditions); float-as-real",
+   ref="DESIGN.md §4 C08")
+
 NOT_YET = {}
 
 NA = {
